@@ -6,6 +6,7 @@ CONSTANTS
   MaxLook = 1
   Proxies = {"p1"}
   PidFaults = FALSE
+  ProxyUnregisters = FALSE
   Mutant = "none"
 INVARIANTS
   TypeOK OneWinner LookupNotDead LookupLive NoStaleUnregister Reusable DevOnlyByProxy
